@@ -2,7 +2,7 @@ import vlib
 
 class P(vlib.Prop):
     id = "C12"
-    watch = ("pkg/build/oci/index.go", "pkg/build/oci/image.go", "pkg/build/types/types.go", "pkg/build/types/image_configuration.go")
+    watch = ("pkg/build/oci/index.go", "pkg/build/oci/image.go", "pkg/build/types/types.go", "pkg/build/types/image_configuration.go", "pkg/build/options.go")
     rule = ("bundle stage: the real oci.BuildIndex over 1/2/3/9 architectures, 1-3 layers per image and tag lists whose lengths are solved so that "
             "len(manifest.json) mod 512 takes chosen residues (quick: 0,1,2,7,100,255,256,257,400,505,506,509,510,511 + 10 seeded; thorough: all 512), "
             "first case = replay of fixed defect 4f724ff (residue 0); every bundle is re-read with archive/tar to its end, every digest/size/diff-id is recomputed "
@@ -15,7 +15,10 @@ class P(vlib.Prop):
             "bundles: raw block walk vs the standard reader on the *os.File vs the model of its position bookkeeping; "
             "time stage: real Format(RFC3339)/MarshalJSON/Parse vs the model and the Spec's parser on corner seconds (epoch, leap days, century rules, month and year boundaries, "
             "both ends of years 0..9999 and beyond, zones, fractions) and seeded ones; shlex stage: real shlex.Split vs the model on hand-picked command lines (quotes, escapes, "
-            "comments, unterminated quotes, invalid UTF-8), seeded strings over a quoting alphabet, plain strings and single-quoted word lists. "
+            "comments, unterminated quotes, invalid UTF-8), seeded strings over a quoting alphabet, plain strings and single-quoted word lists; "
+            "options stage: configuration annotations x --annotations maps (same key on both sides, one side only, nil/empty maps, emitter-owned keys), the option given 0-3 times, "
+            "date options in every order with and without SOURCE_DATE_EPOCH, through the real build.New (offline) and the real emitters: every command-line annotation must be the emitted "
+            "label / manifest annotation / index annotation. "
             "A case is non-trivial unless marked; distinct = distinct inputs.")
     stages = (
         dict(name="bundle", cmd="c12", args=lambda t, s: ["-stage", "bundle"]),
@@ -24,6 +27,7 @@ class P(vlib.Prop):
         dict(name="scan", cmd="c12", args=lambda t, s: ["-stage", "scan"]),
         dict(name="time", cmd="c12", args=lambda t, s: ["-stage", "time"]),
         dict(name="shlex", cmd="c12", args=lambda t, s: ["-stage", "shlex"]),
+        dict(name="options", cmd="c12", args=lambda t, s: ["-stage", "options"]),
     )
     assumptions = (
         "descriptor digests/sizes, diff-ids, JSON and tar encodings are computed by go-containerregistry / cosign / archive/tar and are outside the model: they are re-read and recomputed by the harness (exploration, not proof)",
@@ -43,7 +47,8 @@ class P(vlib.Prop):
                   "c12_rfc3339_roundtrip / _monotone (for every second count in years 0..9999 the created text denotes exactly that instant, has the 20-character shape, and text order = "
                   "time order), c12_rfc3339_out_of_range (outside: MarshalJSON refuses exactly those, witnesses for shape/order), c12_shlex_plain / _quote_roundtrip / _errors (token list = "
                   "fields for unquoted command lines; any word list survives single-quoting; unterminated quotes fail), c12_image_mapping (Validate's service-bundle rewrite, entrypoint/cmd "
-                  "are the model's token lists, created field + label + one history entry per layer denote the creation time, base history kept), c12_image_unserialisable_time. "
+                  "are the model's token lists, created field + label + one history entry per layer denote the creation time, base history kept), c12_image_unserialisable_time, c12_annotations_precedence (command line over configuration file for every key, idempotent under re-application; the direction of the copy in "
+                  "build.WithAnnotations is read from options.go on every run). "
                   "The model is tied to the code by differential comparison on real BuildIndex / BuildImageFromLayers / GenerateIndex / archive/tar / shlex / time runs.")
     level_note = ("trusted: Coq kernel, goextract, Go harness/printer; modelled not verified: Go text of BuildIndex/BuildImageFromLayers/generateIndexWithMediaType/Validate, shlex's tokenizer, "
                   "time's RFC3339 printers, archive/tar's Reader.next bookkeeping (all compared with the real code on every run); "
